@@ -852,13 +852,56 @@ def rec_flag(ck, fm: FuncModel, loop):
     for c in clears:
         pre = c.id in _within(fm, loop, tb, prog_nodes) or c is tb
         post = hdr.id in _within(fm, loop, c, prog_nodes)
-        if pre and post and c.id not in prog_nodes:
+        if pre and post and c.id not in prog_nodes and not _witnessed_by_flag(fm, loop, c, tb, prog_nodes):
             bad.append(c)
     if bad:
         return False, (f"`{F} = {cont}` at line {bad[0].lineno} lies on a path through the loop body that contains no progress "
                        f"statement (no set growth, no worklist removal, no strict decrease, no one-shot latch): the "
                        f"loop can repeat with identical state")
     return True, f"every path that clears `{F}` makes progress ({', '.join(sorted(kinds)) or 'flag never cleared'})"
+
+
+def _witnessed_by_flag(fm: FuncModel, loop, c, tb, prog_nodes: set[int]) -> bool:
+    """The statement is guarded by `if G` where G is a Boolean local that is True only when a progress statement was
+    executed in this round: every `G = True` (looking through copies `G = H`) lies on no progress-free path from the
+    start of the round to the test."""
+    for test, pol, b in fm.facts(c):
+        if not pol or not isinstance(test, ast.Name):
+            continue
+        tnode = fm.cfg.nodes[next(iter(fm.cfg.g.predecessors(b.id)))]
+        todo = [(test.id, tnode)]
+        seen = set()
+        ok = True
+        n_true = 0
+        while todo and ok:
+            name, at = todo.pop()
+            for d in fm.cfg.reaching_defs(name, at):
+                if (name, d.id) in seen:
+                    continue
+                seen.add((name, d.id))
+                a = d.ast
+                if not (d.kind == "stmt" and isinstance(a, ast.Assign) and len(a.targets) == 1 and isinstance(a.targets[0], ast.Name)):
+                    ok = False
+                    break
+                if isinstance(a.value, ast.Name):
+                    todo.append((a.value.id, d))
+                elif is_false(a.value):
+                    continue
+                elif is_true(a.value):
+                    n_true += 1
+                    free_before = d.id in _within(fm, loop, tb, prog_nodes)
+                    free_after = tnode.id in _within(fm, loop, d, prog_nodes)
+                    if d.id in prog_nodes:
+                        continue
+                    if free_before and free_after:
+                        ok = False
+                        break
+                else:
+                    ok = False
+                    break
+        if ok and n_true:
+            return True
+    return False
 
 
 def _progress_nodes(ck, fm: FuncModel, loop) -> tuple[set[int], set[str]]:
